@@ -49,12 +49,16 @@ func getCKKSWorld(c *engine.Chooser, s circ.CKKSSpec) *ckksWorld {
 
 // ciphertext: cached encryption of values (deterministic in seed, world, id), private copy per leaf.
 func (w *ckksWorld) ciphertext(c *engine.Chooser, id string, values []complex128, level int, scale rlwe.Scale) *rlwe.Ciphertext {
-	id = fmt.Sprintf("%s/%d/%s", id, level, scale.Value.Text('g', 30))
+	return w.ciphertextSlots(c, id, values, w.Params.LogMaxSlots(), level, scale)
+}
+
+func (w *ckksWorld) ciphertextSlots(c *engine.Chooser, id string, values []complex128, logSlots, level int, scale rlwe.Scale) *rlwe.Ciphertext {
+	id = fmt.Sprintf("%s/slots%d/%d/%s", id, logSlots, level, scale.Value.Text('g', 30))
 	if ct, ok := w.cts[id]; ok {
 		return ct.CopyNew()
 	}
 	uni.Seed(c, "ciphertext", w.Spec.String(), id)
-	ct := w.Encrypt(values, w.Params.LogMaxSlots(), level, scale)
+	ct := w.Encrypt(values, logSlots, level, scale)
 	w.cts[id] = ct
 	return ct.CopyNew()
 }
@@ -253,18 +257,24 @@ const safety = 16
 // leaf
 
 type ckksCfg struct {
-	spec      circ.CKKSSpec
-	basis     basisCase
-	shapes    []shape
-	dedicated bool
-	kinds     []int
-	declared  bool
+	spec        circ.CKKSSpec
+	basis       basisCase
+	shapes      []shape
+	dedicated   bool
+	kinds       []int
+	declared    bool
+	declareEach bool
+	logSlots    int // 0: full packing; otherwise sparse packing on 2^logSlots slots
 }
 
 func ckksLeaf(c *engine.Chooser, scName string, cfg *ckksCfg) {
 	w := getCKKSWorld(c, cfg.spec)
 	bc := cfg.basis
 	maps := mappings()
+	if cfg.declareEach {
+		// probe scenario: every polynomial of the mixed vector declares its own parity
+		maps = append(maps, mapping{"mixed-parity-declared", 3, thirds, true, true})
+	}
 	sh := cfg.shapes[c.ChooseFree(len(cfg.shapes), "shape")]
 	kind := 0
 	if cfg.kinds != nil {
@@ -299,6 +309,9 @@ func ckksLeaf(c *engine.Chooser, scName string, cfg *ckksCfg) {
 	sig := "C13/ckks-" + bc.name + "/" + entryNames[entry]
 	class := knownClass("ckks", sh, kind, entry, declare)
 	rep := reporter{c: c, class: class, dedicated: cfg.dedicated}
+	if cfg.declareEach && sh.degree > 0 {
+		rep = reporter{c: c, class: classMixedDeclared, dedicated: true}
+	}
 
 	c.Cover("scheme", "ckks-"+bc.name)
 	c.Cover("entry", "ckks/"+entryNames[entry])
@@ -310,27 +323,53 @@ func ckksLeaf(c *engine.Chooser, scName string, cfg *ckksCfg) {
 	c.Cover("targetScale", fmt.Sprint(tgtAlt))
 
 	// ---- model
-	x := ckksInput(bc, w.slots)
+	logSlots := w.Params.LogMaxSlots()
+	if cfg.logSlots > 0 {
+		logSlots = cfg.logSlots
+		c.Cover("packing", "sparse")
+	} else {
+		c.Cover("packing", "full")
+	}
+	slots := 1 << logSlots
+	isReal := w.Spec.CI // conjugate-invariant ring: real slots, real coefficients
+	if isReal {
+		c.Cover("ring", "conjugate-invariant")
+	} else {
+		c.Cover("ring", "standard")
+	}
+	x := ckksInput(bc, slots)
+	if isReal {
+		for j := range x {
+			x[j] = complex(real(x[j]), 0)
+		}
+	}
 	npoly := 1
 	var mp map[int][]int
 	if kind >= kVector0 {
 		m := maps[kind-kVector0]
-		npoly, mp = m.npoly, m.m(w.slots)
+		npoly, mp = m.npoly, m.m(slots)
 	}
 	coeffs := make([][]complex128, npoly)
 	S := 0.0
 	for k := range coeffs {
 		coeffs[k] = make([]complex128, sh.degree+1)
 		s := 0.0
+		mask := sh.mask
+		if kind >= kVector0 {
+			mask = maps[kind-kVector0].maskOf(sh, k)
+		}
 		for i := range coeffs[k] {
-			if sh.mask>>i&1 == 1 {
+			if mask>>i&1 == 1 {
 				coeffs[k][i] = ckksCoeff(bc, k, i)
+				if isReal {
+					coeffs[k][i] = complex(real(coeffs[k][i]), 0)
+				}
 				s += cmplx.Abs(coeffs[k][i])
 			}
 		}
 		S = math.Max(S, s)
 	}
-	want := make([]complex128, w.slots)
+	want := make([]complex128, slots)
 	if mp == nil {
 		for j := range want {
 			want[j] = refEval(bc, coeffs[0], x[j])
@@ -350,6 +389,15 @@ func ckksLeaf(c *engine.Chooser, scName string, cfg *ckksCfg) {
 			p = bignum.NewPolynomial(bignum.Chebyshev, coeffs[k], [2]float64{bc.a, bc.b})
 		} else {
 			p = bignum.NewPolynomial(bignum.Monomial, coeffs[k], nil)
+		}
+		if kind >= kVector0 && maps[kind-kVector0].declareEach {
+			switch k {
+			case 1:
+				p.IsEven = false
+			case 2:
+				p.IsOdd = false
+			}
+			return p
 		}
 		if declare {
 			if sh.parity == 1 {
@@ -394,7 +442,7 @@ func ckksLeaf(c *engine.Chooser, scName string, cfg *ckksCfg) {
 
 	// ---- run
 	uni.Seed(c, scName, desc)
-	ct := w.ciphertext(c, bc.name, enc, level, inScale)
+	ct := w.ciphertextSlots(c, bc.name, enc, logSlots, level, inScale)
 	ctBackup := ct.CopyNew()
 	ev := w.tmpl.ShallowCopy()
 	pe := ckkspoly.NewEvaluator(w.Params, ev)
@@ -434,6 +482,19 @@ func ckksLeaf(c *engine.Chooser, scName string, cfg *ckksCfg) {
 			c.Outcome("rejected")
 		}
 		return
+	case err != nil && cfg.logSlots > 0 && kind >= kVector0:
+		// polynomial vectors on a sparsely packed ciphertext are refused ("#values (MaxSlots) <= slots"): the
+		// evaluator's coefficient getter is sized for full packing. Clean refusal, counted.
+		c.Cover("rejected", "ckks/vector-on-sparse-packing")
+		c.Outcome("rejected")
+		return
+	case err != nil && entry == eFromPBPreLazy && kind != kPolyLazy:
+		// A basis holding a non-relinearized power handed to a polynomial that is not flagged Lazy: the non-lazy
+		// GenPower refuses to multiply the degree-2 power ("total degree cannot exceed 2"). A clean refusal
+		// (GenPower's doc promises automatic relinearization; it only happens on the lazy path: observation, not judged).
+		c.Cover("rejected", "lazy-basis-with-non-lazy-polynomial")
+		c.Outcome("rejected")
+		return
 	case err != nil:
 		debugFail(sig+"/error", desc+" :: "+err.Error())
 		rep.fail(sig+"/error", "error", "%s: %v", desc, err)
@@ -452,7 +513,7 @@ func ckksLeaf(c *engine.Chooser, scName string, cfg *ckksCfg) {
 		return
 	}
 	eps := polyEps(w.Params.Parameters, bc.basis == bignum.Chebyshev, sh.degree, S, circ.ScaleF(inScale), delta)
-	got := w.Decode(out, w.Params.LogMaxSlots(), tgtScale)
+	got := w.Decode(out, logSlots, tgtScale)
 	worst := 0.0
 	for j := range want {
 		d := cmplx.Abs(got[j] - want[j])
@@ -474,6 +535,8 @@ func ckksLeaf(c *engine.Chooser, scName string, cfg *ckksCfg) {
 var (
 	ckksA = circ.CKKSSpec{LogN: 4, NQ: 7, Q0Bits: 55, QBits: 45, NP: 2, PBits: 56, LogScale: 45}
 	ckksB = circ.CKKSSpec{LogN: 5, NQ: 7, Q0Bits: 50, QBits: 40, NP: 2, PBits: 51, LogScale: 40}
+	// conjugate-invariant ring, odd log N
+	ckksCI = circ.CKKSSpec{LogN: 5, NQ: 7, Q0Bits: 55, QBits: 45, NP: 2, PBits: 56, LogScale: 45, CI: true}
 )
 
 func ckksScenarios(tier string, shapes []shape, bound int) []engine.Scenario {
@@ -491,6 +554,31 @@ func ckksScenarios(tier string, shapes []shape, bound int) []engine.Scenario {
 				}
 				cfg := &ckksCfg{spec: spec, basis: bc, shapes: shapes[lo:hi]}
 				name := fmt.Sprintf("%s/%s/shapes%03d-%03d", spec.String(), bc.name, lo, hi-1)
+				scs = append(scs, engine.Scenario{Name: name, Bound: bound, Fn: func(c *engine.Chooser) { ckksLeaf(c, name, cfg) }})
+			}
+		}
+	}
+	// sparse packing (4 slots in a ring with 8) and the conjugate-invariant ring (16 real slots), on the shapes
+	// above the exhaustive range plus every mask up to degree 3
+	extra := shapesFor(3, shapes[len(shapes)-1].degree)
+	type xt struct {
+		spec     circ.CKKSSpec
+		logSlots int
+		bases    []basisCase
+		tag      string
+	}
+	for _, t := range []xt{
+		{ckksA, 2, []basisCase{basisCases[0], basisCases[1]}, "sparse4"},
+		{ckksCI, 0, []basisCase{basisCases[0], basisCases[2]}, "ci"},
+	} {
+		for _, bc := range t.bases {
+			for lo := 0; lo < len(extra); lo += chunk {
+				hi := lo + chunk
+				if hi > len(extra) {
+					hi = len(extra)
+				}
+				cfg := &ckksCfg{spec: t.spec, basis: bc, shapes: extra[lo:hi], logSlots: t.logSlots}
+				name := fmt.Sprintf("%s/%s/%s/shapes%03d-%03d", t.spec.String(), t.tag, bc.name, lo, hi-1)
 				scs = append(scs, engine.Scenario{Name: name, Bound: bound, Fn: func(c *engine.Chooser) { ckksLeaf(c, name, cfg) }})
 			}
 		}
@@ -520,7 +608,7 @@ func ckksScenarios(tier string, shapes []shape, bound int) []engine.Scenario {
 }
 
 func expectCKKS(tier string) []string {
-	e := []string{"rejected=ckks/too-few-levels"}
+	e := []string{"rejected=ckks/too-few-levels", "packing=sparse", "packing=full", "ring=standard", "ring=conjugate-invariant"}
 	for _, bc := range basisCases {
 		e = append(e, "scheme=ckks-"+bc.name)
 	}
